@@ -75,7 +75,17 @@ func adversarialNames(rng *rand.Rand, prefix string, n, bits int) []string {
 	var out []string
 	for i := 0; len(out) < n && i < 4000000; i++ {
 		name := fmt.Sprintf("%s%x", prefix, rng.Int63())
-		low := sutHash(name) & mask
+		h := sutHash(name)
+		low := h & mask
+		tooClose := false
+		for _, other := range byLow[low] {
+			if (sutHash(other)^h)&(1<<26-1) == 0 {
+				tooClose = true // 26+ shared bits: the emulator's table would need GiBs (the known dictionary finding, C04)
+			}
+		}
+		if tooClose {
+			continue
+		}
 		byLow[low] = append(byLow[low], name)
 		if len(byLow[low]) == 2 {
 			out = append(out, byLow[low]...)
@@ -204,7 +214,18 @@ func c17Run(r *verdict.Run, e *emu, cs c17Case, rng *rand.Rand) {
 			}
 			vs, err := mut.Pipeline(cmds[:n])
 			if err != nil {
-				r.Inconclusive(fmt.Sprintf("mutation pipeline failed (%v) in %s", err, cs.kind))
+				dump := ""
+				if os.Getenv("C17_DEBUG_NAMES") != "" {
+					var all []string
+					for _, cm := range cmds {
+						all = append(all, cm[len(cm)-2])
+					}
+					os.WriteFile(os.Getenv("C17_DEBUG_NAMES"), []byte(strings.Join(all, "\n")), 0o644)
+				}
+				if err == wire.ErrTimeout && e.child.Alive() {
+					dump = c16Busy(e.child.SigQuitDump())
+				}
+				r.Inconclusive(fmt.Sprintf("mutation pipeline failed (%v) in %s: first command %s of %d\n%s", err, cs, cmdString(cmds[0]), n, dump))
 				return false
 			}
 			for i, v := range vs {
@@ -280,7 +301,28 @@ func c17Run(r *verdict.Run, e *emu, cs c17Case, rng *rand.Rand) {
 		}
 		return p
 	}
+	nothingStable := false
 	switch cs.script {
+	case "delete-all", "flush":
+		// the collection becomes completely empty in the middle of the iteration: nothing is stable, the iteration
+		// must still end
+		var p phase
+		if cs.script == "flush" {
+			if cs.kind == "scan" {
+				p = phase{{[]string{"FLUSHDB", "FLUSHALL"}[cs.count%2]}}
+			} else {
+				p = phase{{"DEL", coll}}
+			}
+		} else {
+			for _, el := range append(append([]string{}, stable...), volatilePre...) {
+				p = append(p, delCmd(el))
+			}
+		}
+		plan = []phase{nil, p}
+		if cs.count >= 100 {
+			plan = []phase{p}
+		}
+		nothingStable = true
 	case "grow":
 		plan = []phase{grow(cs.size + 4), grow(cs.size + 2), grow(cs.size)}
 	case "shrink":
@@ -399,6 +441,9 @@ func c17Run(r *verdict.Run, e *emu, cs c17Case, rng *rand.Rand) {
 	}
 	missing := []string{}
 	for _, el := range stable {
+		if nothingStable {
+			break
+		}
 		if matches(el) && returned[el] == 0 {
 			missing = append(missing, el)
 		}
@@ -479,7 +524,7 @@ func c17Run(r *verdict.Run, e *emu, cs c17Case, rng *rand.Rand) {
 }
 
 func checkC17(r *verdict.Run) {
-	r.Rule = "full iterations (cursor 0 -> ... -> 0, cursors fed back verbatim) of SCAN/HSCAN/SSCAN over collections of 0-3000 elements with COUNT in {1,2,7,10,100,10000}, with and without MATCH/TYPE, while the driver itself grows (several table doublings), shrinks (table halving), grows-shrinks-grows or churns the collection between calls (during the first calls or spread over the iteration); names random or chosen to share 10-16 low hash bits (long doubling chains); keys removed by DEL, UNLINK or a passed deadline (the latter two leave dead keys in the table, some already dead when the iteration starts), on fresh tables and on tables aged by add/remove cycles. " +
+	r.Rule = "full iterations (cursor 0 -> ... -> 0, cursors fed back verbatim) of SCAN/HSCAN/SSCAN over collections of 0-3000 elements with COUNT in {1,2,7,10,100,10000}, with and without MATCH/TYPE, while the driver itself grows (several table doublings), shrinks (table halving), grows-shrinks-grows, churns or completely empties (key by key, or by FLUSHDB/FLUSHALL/DEL) the collection between calls (during the first calls or spread over the iteration); names random or chosen to share 10-16 low hash bits (long doubling chains); keys removed by DEL, UNLINK or a passed deadline (the latter two leave dead keys in the table, some already dead when the iteration starts), on fresh tables and on tables aged by add/remove cycles. " +
 		"oracle (set arithmetic, no model of the cursor): returned >= stable elements matching the filter, nothing never-present, already dead or non-matching returned, HSCAN values were really held, termination within 4*(elements)/COUNT+64 calls and no cursor repeated after mutations stop. distinct = (command, script, size, COUNT, filter, adversarial bits)"
 	sizes := []int{0, 1, 5, 17, 100}
 	counts := []int{1, 2, 7, 10, 100, 10000}
@@ -490,7 +535,7 @@ func checkC17(r *verdict.Run) {
 	rng0 := shardRng(r, 0)
 	for _, kind := range []string{"scan", "hscan", "sscan"} {
 		for _, size := range sizes {
-			for _, script := range []string{"none", "grow", "shrink", "grow-shrink-grow", "churn"} {
+			for _, script := range []string{"none", "grow", "shrink", "grow-shrink-grow", "churn", "delete-all", "flush"} {
 				// quick: a seeded subset of COUNT values per (kind,size,script); thorough: all
 				cs := counts
 				if r.Tier != "thorough" {
